@@ -115,6 +115,55 @@ def gzip_first_member(data):
         return data
 
 
+def window_behaviours(b, v, tier):
+    if "dateseq" not in b.ops:
+        return 0, 0
+    steps = 5 if tier == "quick" else 6
+    cfg = open(os.path.join(common.VERIF, "spec", "WindowMC.cfg")).read().replace("MaxSteps = 5", "MaxSteps = %d" % steps)
+    t = common.run_tlc("WindowMC", "WindowMC.cfg", timeout=1500, files={"WindowMC.cfg": cfg})
+    if not t.ok:
+        raise common.Infra("TLC on Window failed: %s\n%s" % (t.violation, t.out[-1200:]))
+    T0, DAY = 1700000000, 86400
+    conc = lambda x: 0 if x == 0 else T0 + x * DAY
+    seqs, preds = [], []
+    for r in t.records:
+        seq, pred = [], []
+        for st in r["hist"]:
+            if st["op"] in ("start", "end"):
+                seq.append([st["op"], conc(st["arg"])])
+            elif st["op"] == "call":
+                seq.append(["call"])
+                pred.append((st["res"], sum(1 for x in seq if x[0] != "call") == 0))
+        if pred:
+            seqs.append(seq)
+            preds.append(pred)
+    t.records = None
+    n = 0
+    for ch_s, ch_p in zip(common.chunks(seqs, 20000), common.chunks(preds, 20000)):
+        ans = common.run_inproc(b, [{"op": "dateseq", "args": {"seqs": ch_s}}])[0]["result"]
+        for seq, pred, res in zip(ch_s, ch_p, ans):
+            n += 1
+            v.count()
+            for ci, ((ms, me), (s_, e_, t0, t1)) in enumerate(zip([p[0] for p in pred], res)):
+                clock = me >= 90                   # the model took this window from the clock (Nows = {100, 103} lie apart from every option value)
+                want_ok = (e_ - s_ == WEEK and t0 - 2 <= e_ <= t1 + 2) if clock else (s_, e_) == (conc(ms), conc(me))
+                first = ci == 0
+                given = [x for x in seq[:[i for i, y in enumerate(seq) if y[0] == "call"][0]]]
+                last = {}
+                for op, *arg in given:
+                    last[op] = arg[0]
+                rep = {"steps": seq, "call_no": ci + 1, "result": [s_, e_], "clock": [t0, t1]}
+                if first and last.get("start", 0) and last.get("end", 0) and (s_, e_) != (last["start"], last["end"]):
+                    v.violation("the requested window is altered by the window computation", rep)
+                elif first and not last.get("start", 0) and not last.get("end", 0) and not (e_ - s_ == WEEK and t0 - 2 <= e_ <= t1 + 2):
+                    v.violation("the default window is not the last seven days", rep)
+                elif not want_ok:
+                    v.spec_drift(dict(rep, model=[ms, me]))
+                    break
+    v.nontrivial(("window_behaviours", steps))
+    return t.distinct, n
+
+
 def run(tier):
     v = common.Verdict(PID, tier, "model_checking")
     b = common.build()
@@ -236,11 +285,14 @@ def run(tier):
                 v.violation("the requested window is altered by the window computation", r)
             if not given and (e_ - s_ != WEEK or abs(e_ - r["now"]) > 5):
                 v.violation("the default window is not the last seven days", r)
+    # the window computation as a state machine (spec/Window.tla: setters, clock, GetStartAndEndDates with its write-back into the options):
+    # every behaviour of the bounded model replayed on the real functions
+    wstates, wbeh = window_behaviours(b, v, tier)
     acc, rej, tstates = sl.validate_traces(traces, module="AtlasTrace", cfg="AtlasTrace.cfg", timeout=1500, max_rounds=15)
     for ti, ei, ev, why in rej:
         v.spec_drift({"trace_of": owners[ti], "rejected_at_event": ei, "event": ev, "trace": traces[ti][:14]})
     shutil.rmtree(root, ignore_errors=True)
-    v.cov.update({"states": t.distinct + tstates, "transitions": t.generated, "traces_validated_against_impl": acc, "traces_rejected": len(rej),
+    v.cov.update({"window_model_states": wstates, "window_behaviours_replayed": wbeh, "states": t.distinct + tstates + wstates, "transitions": t.generated, "traces_validated_against_impl": acc, "traces_rejected": len(rej),
                   "exhaustive": True, "runs": len(work), "max_hosts": maxh, "flag_sets": [f[0] for f in FLAGSETS], "connection_strings": len(cs_cases),
                   "rule": "fault-free terminal states of AtlasMC (1..max hosts x digest / no challenge x CLI / library) x concretisations (ports / no ports / "
                           "odd ports, empty, multi-member and ordinary archives, window given / default, 5 flag sets incl. --encrypt); verdict: CONNECT only to "
